@@ -329,8 +329,9 @@ pub fn arms_program(expr: &Ty, pos: Position, compact_attr: bool, n_name: &str) 
                         index: Some(3),
                         ..variant("A", Fields::Unnamed(vec![Field::new(U16), f]))
                     },
+                    // the largest index a variant can have (a u8 on the wire)
                     Variant {
-                        index: Some(1),
+                        index: Some(255),
                         ..variant("B", Fields::Unit)
                     },
                 ],
